@@ -319,7 +319,7 @@ Lemma step_preserves s st : Inv s -> step_pre st ->
   forall l, c_rc (cfg_of cfg (fst l)) = false ->
     LV (fst (do_step cfg s st)) l = spec_txs (LV s) (accepted [st]) l.
 Proof.
-  intros HI Hst. destruct st as [t| | | | | |]; cbn [do_step fst accepted].
+  intros HI Hst. destruct st as [t| | | | | | |]; cbn [do_step fst accepted].
   - pose proof (commit_preserves s t HI Hst) as H. destruct (commit cfg s t) as [s' code]. cbn [fst].
     destruct H as (H1 & H2 & H3). split; [exact H1|]. intros l _. rewrite H2.
     destruct (tx_valid cfg t) eqn:Ev.
@@ -335,6 +335,7 @@ Proof.
   - destruct (clean_props s (proj1 HI)) as (a1 & a2 & a3 & _).
     destruct (log_step_preserves _ _ HI a1 a2 a3) as [H1 L1]. split; [exact H1|]. intros l _. apply L1.
   - destruct (reopen_preserves s HI) as (H1 & H2 & _). split; [exact H1|]. intros l Hrc. apply H2. exact Hrc.
+  - split; [exact HI|]. intros l _. reflexivity.
 Qed.
 
 Lemma accepted_cons st steps : accepted (st :: steps) = accepted [st] ++ accepted steps.
